@@ -13,6 +13,7 @@ per-unit decode function to it.
 import DdsModel.Proofs.Addr
 import DdsModel.Proofs.AddrBlock
 import DdsModel.Proofs.AddrPlanar
+import DdsModel.Proofs.AddrPlanar2
 import DdsModel.Drv.C05
 namespace Dds.C05
 open Dds Dds.Addr
@@ -348,17 +349,14 @@ theorem planar_lines_account (g : PlGeom) (hs : 0 < g.ssy) (hh : 0 < g.h) (hy : 
   · rw [e]; exact d.1
   · rw [e]; exact d.2
 
-/-- **rect = crop, bi-planar family — row level (partial).**  For sub-sampling 2 (NV12, P010, P016):
-one row of a rectangle decode without channel conversion (`process_bi_planar_helper` on the slices
-`plane1[ox .. ox+w]`, `uv[ox/2 .. div_ceil(ox+w, 2)]` with `offset = ox % 2`) computes output pixel
-`c` from luma sample `ox + c` and chroma sample `(ox + c) / 2` — exactly the samples the full decode
+/-- row level of the bi-planar family for sub-sampling 2 (NV12, P010, P016), stated directly on
+`process_bi_planar_helper::<2, ..>`: one row of a rectangle decode without channel conversion (the helper on
+the slices `plane1[ox .. ox+w]`, `uv[ox/2 .. div_ceil(ox+w, 2)]` with `offset = ox % 2`) computes output
+pixel `c` from luma sample `ox + c` and chroma sample `(ox + c) / 2` — exactly the samples the full decode
 uses for surface column `ox + c` — writes every pixel of the row and nothing outside it.
-NOT assembled (hence `_partial`): (1) the `y_offset` loops of `for_each_bi_planar{,_rect}`
-(`planarFullInner` / `planarRectInner`, accumulator `y`: output row `y - oy` gets luma line `y` and
-chroma line `y / 2`), (2) the chunk composition of `ChannelConversionBuffer::process_bi_planar`
-(`convPlanar`; same pattern as `ProcSpec.split` / `ProcSpec.chunks` of the block family).  Both are
-executed by the tie (NV12 probe: luma and chroma coordinates are read back per pixel). -/
-theorem rect_eq_crop_planar_partial (ox w yoff ly cy row : Nat) :
+(Formerly `rect_eq_crop_planar_partial`; the assembled statement for whole views, every sub-sampling and
+the conversion chunks is `rect_eq_crop_planar` below.) -/
+theorem rect_eq_crop_planar_row (ox w yoff ly cy row : Nat) :
     (∀ r ∈ planarHelper 2 (ox % 2) w yoff, ∀ col, r.col ≤ col → col < r.col + r.n →
       col < w ∧
       (PlRun.shift row 0 ox ly (ox / 2) cy r).srcAt 2 col = (ox + col, ly, (ox + col) / 2, cy, yoff)) ∧
@@ -379,6 +377,120 @@ theorem rect_eq_crop_planar_partial (ox w yoff ly cy row : Nat) :
   omega
 
 example : ∃ r ∈ planarHelper 2 (3 % 2) 4 1, r.col ≤ 2 ∧ 2 < r.col + r.n := by decide
+
+/-- **the full decode of the bi-planar family** (`for_each_bi_planar`), for every sub-sampling
+`(ssx, ssy)` with `ssx, ssy ≥ 1`, every surface size, with or without channel conversion (`PlOk`: with
+conversion one macro pixel fits the buffer, `ssx ≤ 3072 / native_bpp`): output pixel `(i, j)` is computed
+from luma sample `(i, j)`, chroma sample `(i / ssx, j / ssy)` and `y` argument `j % ssy`; nothing else is
+written.  Assembles the `y_offset` loop with its running counter `y` (`planarFullInner`,
+`planarFullLoop`: `mem_planarFull`) and the conversion chunks (`convPlanar_spec`). -/
+theorem full_planar (conv : Bool) (nbpp ssx ssy W H : Nat) (ok : PlOk ssx ssy conv nbpp) :
+    (∀ i j, i < W → j < H →
+      lastWritePl ssx (planarFull conv nbpp ssx ssy W H) j i = some (i, j, i / ssx, j / ssy, j % ssy)) ∧
+    (∀ row col, ¬ (col < W ∧ row < H) → lastWritePl ssx (planarFull conv nbpp ssx ssy W H) row col = none) := by
+  have hs := planarFull_sound conv nbpp ssx ssy W H ok
+  have hc := planarFull_cover conv nbpp ssx ssy W H ok
+  refine ⟨?_, fun row col ho => lastWritePl_outside hs row col ho⟩
+  intro i j hi hj
+  have := lastWritePl_crop hs hc i j hi hj
+  simpa using this
+
+/-- **rect = crop, bi-planar family — assembled** (`for_each_bi_planar_rect` against
+`for_each_bi_planar`), for every sub-sampling `(ssx, ssy)` with `ssx, ssy ≥ 1` (shipped: `(2, 2)`),
+every surface `W × H`, every rectangle inside it (any offset parity), with or without channel conversion
+on either side (`PlOk`: with conversion `ssx ≤ 3072 / native_bpp`), every row pitch.
+Conclusions (as in `rect_eq_crop_block`): (1) output pixel `(i, j)` of the rectangle decode is computed
+from luma sample `(ox+i, oy+j)`, chroma sample `((ox+i)/ssx, (oy+j)/ssy)` and `y` argument `(oy+j) % ssy`
+— the same the full decode (any settings) uses for `(ox+i, oy+j)`; (2) nothing outside the `w × h` view is
+written; (3) every write stays in the addressed bytes of an addressed row for every pitch `≥ w·bpp`;
+(4) every run feeds slots of ONE macro pixel (one chroma sample; slots `0..n`, see `imagePl`), and every
+sample it reads lies inside its plane (`luma x < W`, `luma y < H`, `chroma x < div_ceil(W, ssx)`,
+`chroma y < div_ceil(H, ssy)`).
+Assembles (i) the `y_offset` loops with the running counter `y` — rows before the rectangle skipped,
+loop left after it, `y = (uv_before + k)·ssy` at every chroma line (`mem_planarRect`, `mem_planarFull`) —
+and (ii) the chunk composition of `ChannelConversionBuffer::process_bi_planar` — the offset chunk ends on
+a macro-pixel boundary, `preferred_chunk_size` is a positive multiple of `ssx`, so every chunk start is
+aligned and `plane2_start · ssx = chunk_start` (`convPlanar_spec`). -/
+theorem rect_eq_crop_planar (g : PlGeom) (conv convF : Bool) (nbpp nbppF W : Nat)
+    (ok : PlOk g.ssx g.ssy conv nbpp) (okF : PlOk g.ssx g.ssy convF nbppF)
+    (hx : g.ox + g.w ≤ W) (hy : g.oy + g.h ≤ g.H) :
+    (∀ i j, i < g.w → j < g.h →
+      lastWritePl g.ssx (planarRect conv nbpp g) j i =
+        some (g.ox + i, g.oy + j, (g.ox + i) / g.ssx, (g.oy + j) / g.ssy, (g.oy + j) % g.ssy) ∧
+      lastWritePl g.ssx (planarRect conv nbpp g) j i =
+        lastWritePl g.ssx (planarFull convF nbppF g.ssx g.ssy W g.H) (g.oy + j) (g.ox + i)) ∧
+    (∀ row col, ¬ (col < g.w ∧ row < g.h) → lastWritePl g.ssx (planarRect conv nbpp g) row col = none) ∧
+    (∀ r ∈ planarRect conv nbpp g, ∀ pitch obpp, g.w * obpp ≤ pitch →
+      r.row < g.h ∧ r.row * pitch ≤ r.byteLo pitch obpp ∧ r.byteHi pitch obpp ≤ r.row * pitch + g.w * obpp) ∧
+    (∀ r ∈ planarRect conv nbpp g, r.px + r.n ≤ g.ssx ∧ r.ly < g.H ∧ r.cy < divCeil g.H g.ssy ∧
+      ∀ t, t < r.n → r.lx + t < W ∧ r.cx + (r.px + t) / g.ssx < divCeil W g.ssx) := by
+  have hs := planarRect_sound conv nbpp g ok hy
+  have hc := planarRect_cover conv nbpp g ok hy
+  have hsF := planarFull_sound convF nbppF g.ssx g.ssy W g.H okF
+  have hcF := planarFull_cover convF nbppF g.ssx g.ssy W g.H okF
+  refine ⟨?_, fun row col ho => lastWritePl_outside hs row col ho, ?_, ?_⟩
+  · intro i j hi hj
+    have e1 := lastWritePl_crop hs hc i j hi hj
+    have e2 := lastWritePl_crop hsF hcF (g.ox + i) (g.oy + j) (by omega) (by omega)
+    rw [e1, e2]; simp
+  · intro r hr pitch obpp hp
+    obtain ⟨h1, h2, _⟩ := hs r hr
+    obtain ⟨b1, _, b3, _⟩ := plRun_bytes_in_row pitch obpp g.w r hp h2
+    exact ⟨h1, b1, b3⟩
+  · intro r hr
+    obtain ⟨h1, h2, h3, h4, h5, h6, h7, h8, h9⟩ := hs r hr
+    have hcy : r.cy * g.ssy ≤ g.oy + r.row := by rw [h8]; exact Nat.div_mul_le_self _ _
+    refine ⟨h5, by omega, by rw [lt_divCeil_iff ok.sy]; omega, ?_⟩
+    intro t ht
+    have e0 : (r.px + t) / g.ssx = 0 := Nat.div_eq_of_lt (by omega)
+    refine ⟨by omega, ?_⟩
+    rw [e0, Nat.add_zero, lt_divCeil_iff ok.sx]; omega
+
+/-- the hypotheses are satisfiable: NV12-like `5 × 3` surface, rectangle `3 × 2` at the odd offset `(1, 1)`,
+without conversion and with a conversion buffer of exactly one macro pixel (`3072 / 1536 = 2`, so the
+row is cut into the offset chunk and aligned chunks of 2). -/
+example : PlOk 2 2 false 4 ∧ PlOk 2 2 true 1536 ∧ (1 : Nat) + 3 ≤ 5 ∧ (1 : Nat) + 2 ≤ 3 :=
+  ⟨⟨by decide, by decide, fun h => by cases h⟩, ⟨by decide, by decide, fun _ => by decide⟩, by decide, by decide⟩
+/-- ... and the model really computes it: pixel `(2, 1)` of that rectangle is surface pixel `(3, 2)` with
+chroma sample `(1, 1)`, `y` argument 0, through the chunked conversion path as well; the whole `3 × 2`
+view agrees with the crop of the full decode and the pixel right of / below the view is untouched. -/
+example : lastWritePl 2 (planarRect false 4 ⟨2, 2, 3, 1, 1, 3, 2⟩) 1 2 = some (3, 2, 1, 1, 0) ∧
+    lastWritePl 2 (planarRect true 1536 ⟨2, 2, 3, 1, 1, 3, 2⟩) 1 2 = some (3, 2, 1, 1, 0) ∧
+    (∀ j ∈ List.range 2, ∀ i ∈ List.range 3,
+      lastWritePl 2 (planarRect true 1536 ⟨2, 2, 3, 1, 1, 3, 2⟩) j i =
+        lastWritePl 2 (planarFull false 4 2 2 5 3) (1 + j) (1 + i)) ∧
+    lastWritePl 2 (planarRect true 1536 ⟨2, 2, 3, 1, 1, 3, 2⟩) 0 3 = none ∧
+    lastWritePl 2 (planarRect true 1536 ⟨2, 2, 3, 1, 1, 3, 2⟩) 2 0 = none ∧
+    (planarRect true 1536 ⟨2, 2, 3, 1, 1, 3, 2⟩).length = 4 :=
+  ⟨by decide, by decide, by decide, by decide, by decide, by decide⟩
+/-- asymmetric sub-sampling `(4, 1)` with offset `ox % 4 = 3` -/
+example : PlOk 4 1 true 16 ∧
+    lastWritePl 4 (planarRect true 16 ⟨4, 1, 3, 3, 1, 6, 2⟩) 1 4 = some (7, 2, 1, 2, 0) := by
+  refine ⟨⟨by decide, by decide, fun _ => by decide⟩, by decide⟩
+
+/-- **rect = crop for the decoded values**: for any slot-wise pixel function `f luma chroma y` and any
+plane contents, pixel `(i, j)` of the rectangle decode equals pixel `(ox+i, oy+j)` of the full decode. -/
+theorem rect_eq_crop_planar_image {β₁ β₂ γ : Type} (f : β₁ → β₂ → Nat → γ) (plane1 : Nat → Nat → β₁)
+    (plane2 : Nat → Nat → β₂) (g : PlGeom) (conv convF : Bool) (nbpp nbppF W : Nat)
+    (ok : PlOk g.ssx g.ssy conv nbpp) (okF : PlOk g.ssx g.ssy convF nbppF)
+    (hx : g.ox + g.w ≤ W) (hy : g.oy + g.h ≤ g.H) (i j : Nat) (hi : i < g.w) (hj : j < g.h) :
+    imagePl g.ssx f plane1 plane2 (planarRect conv nbpp g) j i =
+      imagePl g.ssx f plane1 plane2 (planarFull convF nbppF g.ssx g.ssy W g.H) (g.oy + j) (g.ox + i) ∧
+    imagePl g.ssx f plane1 plane2 (planarRect conv nbpp g) j i =
+      some (f (plane1 (g.ox + i) (g.oy + j)) (plane2 ((g.ox + i) / g.ssx) ((g.oy + j) / g.ssy))
+        ((g.oy + j) % g.ssy)) := by
+  obtain ⟨e1, e2⟩ := (rect_eq_crop_planar g conv convF nbpp nbppF W ok okF hx hy).1 i j hi hj
+  unfold imagePl
+  rw [← e2, e1]
+  exact ⟨rfl, rfl⟩
+
+/-- `PlOk`, finite part: for the shipped sub-sampling 2 (and every `ssx < 16` a `u8` pair of the format
+table could hold) and every native pixel size `1..16` bytes the conversion buffer holds at least one macro
+pixel, so `step_by(preferred_chunk_size)` never sees 0. -/
+theorem planar_pref_pos :
+    ∀ ssx ∈ List.range' 1 15, ∀ nbpp ∈ [1, 2, 3, 4, 6, 8, 12, 16],
+      ssx ≤ BUFFER_BYTES / nbpp ∧ 0 < roundDown (BUFFER_BYTES / nbpp) ssx := by
+  decide
 
 /-! ## channel mapping and decoder selection -/
 
